@@ -185,7 +185,9 @@ def r16_6(repo: Repo) -> RuleResult:
     if not size_names:
         raise AnalysisError("R16.6: size counter initialisation not found")
     sz = size_names[0]
-    capped = ("%s >= %s" % (sz, cap), "false") in guards or ("%s < %s" % (sz, cap), "true") in guards
+    from .common import rel_under
+
+    capped = any(rel_under(g.nodes[t].ast, lab) == ("lt", sz, cap) for t, lab in g.guards_of(ins.id) if isinstance(g.nodes[t].ast, ast.AST))
     not_member = any(t.endswith(" in %s" % d) and lab == "false" for t, lab in guards)
     incs = [n for n in g.nodes if n.kind == "stmt" and isinstance(n.ast, ast.AugAssign) and norm(n.ast.target) == sz]
     follows = len(incs) == 1 and isinstance(incs[0].ast.op, ast.Add) and norm(incs[0].ast.value) == "1" \
